@@ -143,15 +143,17 @@ func scenario(maxRetries int, rfIdx int, elapsed bool, cancelling bool) *explore
 			wait := atts[k].start - atts[k-1].end
 			lo := time.Duration(float64(interval) * (1 - rf))
 			hi := time.Duration(float64(interval)*(1+rf)) + 2
-			pastElapsed := maxElapsed > 0 && atts[k-1].end-atts[0].end >= maxElapsed
-			if !pastElapsed && wait < lo-1 {
+			if wait < lo-1 {
 				vs.Fail("back-off", "%s: retry %d started after %v, configured back-off at least %v", cfg, k, wait, lo)
 			}
-			// gives up early: the message context ended during attempt k-1 and the wait before retry k is
-			// positive, so at the wait only the ended context is ready (with a zero or already-stopped
-			// back-off both are ready and either may win, which the statement does not exclude)
-			if cancelAt == k-1 && lo > 0 && !(maxElapsed > 0 && atts[k-1].end-atts[0].end >= maxElapsed) {
-				vs.Fail("gives-up-early", "%s: the message context ended during attempt %d, but retry %d was made after waiting %v", cfg, k-1, k, wait)
+			// gives up early: once the message context has ended (during attempt k-1 or before) no retry is made,
+			// whatever the back-off (zero waits included: the context decides, not the select statement)
+			if cancelAt >= 0 && cancelAt <= k-1 {
+				vs.Fail("gives-up-early", "%s: the message context ended during attempt %d, but retry %d was made after waiting %v", cfg, cancelAt, k, wait)
+			}
+			// ... and neither once MaxElapsedTime has passed (strictly: at the deadline itself either is fine)
+			if maxElapsed > 0 && atts[k-1].end-atts[0].end > maxElapsed {
+				vs.Fail("gives-up-early", "%s: MaxElapsedTime had passed %v after the first failure, but retry %d was made", cfg, atts[k-1].end-atts[0].end, k)
 			}
 			if wait > hi {
 				vs.Fail("back-off-upper", "%s: retry %d started after %v, configured back-off at most %v", cfg, k, wait, hi)
